@@ -25,6 +25,7 @@ EXPLANATION = (
     "T: a line with more than one fragment satisfies sum(w+ws) - ws_last + pen_last <= width (-) dw(indent actually rendered); "
     "widths are additive (C10). U: what counts as 'no break opportunity' with break_words off; display_width across cuts "
     "inside malformed escapes (excluded by the quantifier)."
+    " (R6) same rule as C05.R5 (fragment boundaries are computed by escape-aware scans); the hyphen splitter and the ASCII-space separator are genuine findings recorded in KNOWN_FINDINGS.txt."
 )
 ASSUMPTIONS = ["A-rustc", "A-std", "C10 additivity of display_width (paper)"]
 LEVEL_TEXT = (
@@ -167,6 +168,11 @@ def run(prog, rep):
     optconv.check(prog, rep, 'C02')
     lemmas.load_all()
     guarded(rep, "C02.R1", SLOW, lambda: _check(prog, rep))
+    # no fragment boundary inside an escape sequence (same rule as C05.R5): a piece holding an incomplete sequence is
+    # measured wrongly, so a line can be wider than the width although every fragment seemed to fit
+    from .C05 import _escape_aware
+    guarded(rep, "C02.R6", "crate", lambda: _escape_aware(
+        prog, rep, rule="C02.R6", consequence="a line assembled from such pieces can be wider than the configured width"))
     # C06.R2: the emitted lines are exactly the runs the break rule decided; C01.R1: a line's text is its fragments
     # C10: every width in the pipeline is display_width, the measure the property is stated in
     need = ["C10", "DISPATCH", "C07.R1", "C06.R2", "C01.R1", "C12.R6", "C12.R7", "C12.R3", "C12.R4", "C12.R9", "C11.R3", "C11.R1", "C11.R8", "C07.R4"]
